@@ -46,11 +46,11 @@ structure LLst where
   lo : Int
   hi : Option Int
   unique : Bool
-  base : Nat
+  base : Ty
   cells : List (Option Val)
   deriving DecidableEq, Repr
 
-def LLst.new (lo : Int) (hi : Option Int) (base : Nat) (u : Bool) : LLst :=
+def LLst.new (lo : Int) (hi : Option Int) (base : Ty) (u : Bool) : LLst :=
   match hi with
   | some h => { lo, hi, unique := u, base, cells := pyRepeatNone (h - lo + 1) }
   | none => { lo, hi, unique := u, base, cells := [none] }
